@@ -502,7 +502,14 @@ impl std::io::Write for FileSpillWriter {
             )));
         }
 
-        self.file.write_all(buf).map_err(DataFusionError::IoError)?;
+        if let Err(e) = self.file.write_all(buf) {
+            // The bytes were never accounted to this file, so dropping the file
+            // will not release them: undo the global reservation here.
+            self.disk_manager
+                .used_disk_space
+                .fetch_sub(len, Ordering::Relaxed);
+            return Err(DataFusionError::IoError(e).into());
+        }
 
         self.current_file_disk_usage
             .fetch_add(len, Ordering::Relaxed);
